@@ -6,6 +6,18 @@ props = [json.loads(l) for l in open(os.path.join(V, "properties.jsonl"))]
 ids = [p["id"] for p in props]
 
 CLAIMS = {
+ "C02": dict(cat="model_checking", tech="TLA+ Layer-A trace validation (TLC) of session-cut histories incl. fs.OS/fs.OSMMap alternation; TLC model check of spec/Wal.tla (Close/OpenClean)",
+   text="Random histories over colliding keys are cut into sessions by Close/Open at random positions on all four file systems, half of them alternating fs.OS and fs.OSMMap on one directory; every reopen is observed (contents, Count, Has, Items, recovery indicator) and validated by TLC against Layer A's OpenClean. The Wal model checks Close/OpenClean with persisted metadata exhaustively within its bounds; the pinned 'reuse any unfilled segment' config must be refuted.",
+   note="Trusts TLC and the harness; recovery indicator = pogreb's log output of that Open.", ref="6 (C02)"),
+ "C05": dict(cat="model_checking", tech="TLC model check of spec/Wal.tla (writers interleaved with Pick/Seal/Step/Remove, crashes) + Layer-A trace validation of hook-scheduled interleavings with crash images",
+   text="The Wal model interleaves Put/Del with every step of compaction and with crashes exhaustively within bounds (Represents, ReplayOK); the pinned pick-then-seal config must be refuted. On the real code writers are injected through the verif yield hook at random subsets of all yield points of Compact (after the pick, before each seal, before every record, before each removal), with crash images at every mutating file-system call inside and outside Compact; TLC validates the recordings against Layer A.",
+   note="Trusts TLC, crashfs, and that an operation run at a lock-free yield point on the compacting goroutine is equivalent to another goroutine scheduled there.", ref="6 (C05)"),
+ "C11": dict(cat="model_checking", tech="TLC model check of spec/LHIndex.tla (ScanExact, SplitMovesForward) + Layer-A trace validation of call-by-call scans",
+   text="Quiescent scans are exact in LHIndex for every hash assignment and in every read-back of the recorded histories; concurrent scans are stepped call by call between engineered puts (splits under the cursor), deletes and compaction, and TLC validates truthfulness and completeness for untouched keys against Layer A's scan bookkeeping.",
+   note="Trusts TLC and the harness. Interleavings are at Next-call granularity (each Next holds the read lock for its whole duration in the code).", ref="6 (C11)"),
+ "C12": dict(cat="model_checking", tech="Layer-A trace validation (TLC) of Backup calls with writers hook-scheduled into every gap of Backup",
+   text="Writers (with rollover) are injected at the yield points of Backup (after the capture, before each segment copy, before the lock file), every backup is opened by the real code and read back; TLC validates that the backup equals the contents at one instant between call and return (Backup's Lin step) and that the source is unaffected.",
+   note="Trusts TLC and the harness; the maintenance lock excludes compaction during Backup by construction (checked in C10's concurrent runs).", ref="6 (C12)"),
  "C01": dict(cat="model_checking", tech="TLC model check of spec/LHIndex.tla (every hash assignment) + TLA+ Layer-A trace validation of recordings over engineered colliding keys",
    text="The linear-hashing index is specified in spec/LHIndex.tla and checked exhaustively by TLC for every assignment of hashes to 4-5 keys (C=2 and C=3 slots per bucket, up to 9 operations: Represents, CountOK, ScanExact, WellFormed, SplitMovesForward); the pinned findInsertionBucket config must be refuted. The real code is then driven through random histories over ~80 keys engineered (pinned seed) to share low hash bits and full 32-bit hashes, on crashfs, fs.Mem, fs.OS and fs.OSMMap with small segments, compaction and clean restarts; every result and periodic full read-backs (Get, Has, Count, Items) are validated by TLC against the sequential map of Layer A.",
    note="Trusts TLC and the harness; real-constant (31 slots) behaviour is covered by recordings, not exhaustively.", ref="4.2, 6 (C01)"),
